@@ -3040,7 +3040,10 @@ def random_history(r: random.Random, n: int) -> list[tuple]:
                 "while x do --[[ c ]] break end", "function a.b:c(...) return ... end", "if a then b() else if c then d() end end",
                 "if a then else if b then else if c then end end end", "x = a - (b - c) .. 'q' ; (f)()", "-- c1\nlocal t <const> = {f = function() return end}"]
     progs_ok = progs_ok + [gen.program(r, gen.Cfg(max_depth=2, max_stats=3)) for _ in range(3)]
-    progs_bad = ["x = ", "x = 'abc", "end", "x = 1 end y = 2", "f(", "x = 0x", "local function", "a.b", "x = \"\\q\""]
+    progs_bad = ["x = ", "x = 'abc", "end", "x = 1 end y = 2", "f(", "x = 0x", "local function", "a.b", "x = \"\\q\"",
+                 # failures that strike while the lexer holds pending state (comments read and not yet delivered, an open hint)
+                 "x = 1\n-- helpers\n--[[ TODO never closed", "-- pending\n--[==[ open", "-- c1\n--[[ c2 ]] 'unclosed", "f(g(h(1,\n-- c\n--[[ open",
+                 "-- c\nx = [[ never closed", "t = {1, {2, -- c\n\"abc\n"]
     typed_text = "x as y is z as is"
     ops = []
     nlex = 0
